@@ -94,6 +94,10 @@ class _Snap:
 
     def _snap(self):
         self._tagsnaps.append(_safe_tags(self))
+        try:
+            self._tagobjs.append(self.current_tags)  # the very object a result that asks at the outcome is given
+        except Exception:  # noqa
+            self._tagobjs.append(None)
 
 
 def _snap_methods(base, log_calls):
@@ -138,6 +142,7 @@ def _snap_methods(base, log_calls):
 class ExtRec(_Snap, doubles.ExtendedTestResult):
     def __init__(self):
         self._tagsnaps = []
+        self._tagobjs = []
         super().__init__()
 
 
@@ -150,6 +155,7 @@ class TTRec(_Snap, real.TestResult):
 
     def __init__(self, failfast=False):
         self._tagsnaps = []
+        self._tagobjs = []
         self._events = []
         super().__init__(failfast=failfast)
 
@@ -161,6 +167,7 @@ for _n, _f in _snap_methods(real.TestResult, True).items():
 class TextRec(_Snap, real.TextTestResult):
     def __init__(self, failfast=False):
         self._tagsnaps = []
+        self._tagobjs = []
         self._events = []
         self.text = io.StringIO()
         super().__init__(self.text, failfast=failfast)
@@ -183,6 +190,8 @@ class Node:
         self.calls = None  # ByTest: callback records
         self.seen = 0  # log entries already projected
         self.snapseen = 0
+        self.dicts = None  # E2S: what a StreamToDict consumer was handed
+        self.dictseen = 0
         self.na = False  # wasSuccessful()/testsRun are answered by a stream summary (C10's business)
 
 
@@ -214,12 +223,13 @@ def build(nodes_spec, preff):
             n.obj = doubles.TwistedTestResult()
         elif k == "E2S":
             n.sink = doubles.StreamResult()
+            n.dicts = []
+            consumers = [n.sink, real.StreamToDict(n.dicts.append)]
             if n.ch:
                 s2e = nodes[n.ch[0]]
                 mk_s2e(s2e)
-                target = real.CopyStreamResult([n.sink, s2e.obj])
-            else:
-                target = n.sink
+                consumers.append(s2e.obj)
+            target = real.CopyStreamResult(consumers)
             n.obj = real.ExtendedToStreamDecorator(target)
             if preff:
                 n.obj.failfast = True
@@ -517,3 +527,58 @@ def expected_text_summary(run, cnt, ok):
     bad = sum(cnt)
     return {"ran": run, "word": "test" if run == 1 else "tests", "verdict": "OK" if ok == "T" else "FAILED",
             "failures": None if ok == "T" else bad, "sections": list(cnt)}
+
+
+# --- objects that were handed out, kept next to their receive-time value (C17: what was observed for a test stays) ---
+class Retained:
+    def __init__(self):
+        self.items = []  # (source, node index, object, snapshot)
+
+    def keep(self, source, idx, obj):
+        if obj is None:
+            return
+        try:
+            snap = sorted(obj)
+        except Exception:  # noqa
+            return
+        self.items.append((source, idx, obj, snap))
+
+    def changed(self):
+        """-> [(source, node index, snapshot, value now)] for every kept object that no longer equals its snapshot"""
+        out = []
+        for source, idx, obj, snap in self.items:
+            try:
+                now = sorted(obj)
+            except Exception as ex:  # noqa
+                now = "raises:%s" % type(ex).__name__
+            if now != snap:
+                out.append((source, idx, snap, now))
+        return out
+
+
+def retain_new(ret, node, stage):
+    """keep what node handed out / was handed during the call just made.  stage 'log': consumer-side objects (called before
+    project_new); stage 'attr': the value current_tags returns now."""
+    i = node.idx
+    if stage == "attr":
+        if node.k not in ("Py26", "Py27", "Tw", "S2E"):
+            try:
+                ret.keep("current_tags", i, node.obj.current_tags)
+            except Exception:  # noqa
+                pass
+        return
+    if node.k == "ByTest":
+        for kw in node.calls[node.seen :]:
+            ret.keep("on_test-tags", i, kw["tags"])
+    elif node.k == "E2S":
+        for e in node.sink._events[node.seen :]:
+            if e[0] == "status" and e.test_status not in (None, "inprogress"):
+                ret.keep("stream-test_tags", i, e.test_tags)
+        for d in node.dicts[node.dictseen :]:
+            ret.keep("StreamToDict-tags", i, d["tags"])
+        node.dictseen = len(node.dicts)
+    elif not node.ch and hasattr(node.obj, "_tagobjs"):
+        objs = node.obj._tagobjs
+        for o in objs[getattr(node, "objseen", 0) :]:
+            ret.keep("current_tags-at-outcome", i, o)
+        node.objseen = len(objs)
